@@ -26,6 +26,8 @@ Lemma ob_parse_proxy_shape :
 Proof. vm_compute. repeat split; reflexivity. Qed.
 Lemma ob_parse_proxy_validates_port : parse_proxy_validates_port = true.
 Proof. vm_compute. reflexivity. Qed.
+Lemma ob_parse_proxy_validates_host : parse_proxy_validates_host = true.
+Proof. vm_compute. reflexivity. Qed.
 Lemma ob_first_shape : first_empty_is_direct = true /\ first_entry_sep = [59].
 Proof. vm_compute. split; reflexivity. Qed.
 Lemma ob_url_shape : url_nil_mode = m_DIRECT /\ url_remap = [(m_PROXY, m_HTTP)] /\ url_scheme_lower = true.
